@@ -92,11 +92,12 @@ MonBackgroundFetchOnlyAfterMountReturns == (ev.ev = "BgStart") => pri = 0
 
 \* end to end: lazy reads through the kernel return the file contents; at quiet points the committed remote snapshots of the
 \* snapshotter, the layer map of the filesystem and the kernel mounts under the snapshotter root correspond one to one
+\* (extra = active snapshots a remote Prepare mounted and left behind because its target name already existed: Snapshotter.tla PR_Commit "exists")
 MonLazyReads == ("reads" \in DOMAIN ev) => \A i \in 1..Len(ev.reads) : ev.reads[i] = "ok"
 MonFreeReads == ("read" \in DOMAIN ev) => ev.read = "ok"
 MonE2EMapEqualsRemoteSnapshots ==
     (ev.ev = "SnCall" /\ ev.quiet) =>
         IF ev.closed THEN ev.st.stray = 0
-        ELSE /\ ev.st.nmap = Len(ev.st.remote) /\ ev.st.mounted = ev.st.nmap /\ ev.st.stray = 0
+        ELSE /\ ev.st.nmap = Len(ev.st.remote) + ev.extra /\ ev.st.mounted = ev.st.nmap /\ ev.st.stray = 0
 NoProblem == ev.ev # "Problem"
 =============================================================================
